@@ -21,7 +21,7 @@ TRUSTED = ['model of the loader logic of pdf_traverse_xref.rs in coq/Model/Loade
            'subject of C02 C05 C13 C14 C06 C07, not of this property']
 ASSUMPTIONS = ['a stream read with a /Length different from its payload length does not parse',
                'only xref-stream items carry /Type /XRef, only object-stream items /Type /ObjStm; no /Encrypt in trailers',
-               'header offset + any offset written in the file < 2^64; object values nest less than 50 deep']
+               'object values nest less than 50 deep']
 CASE_TIMEOUT = 60
 XC_MAXLEN = 5000
 XC_CASES = 10
